@@ -44,6 +44,12 @@ def main(args):
     if opts.isar_includes and not opts.sack:
         emit.error('Isar defines inclusion is supported only in "sack" compilation mode.')
 
+    outputs_of = {}
+    for input_file in opts.input_files:
+        other = outputs_of.setdefault(get_basename(input_file), os.path.abspath(input_file))
+        if other != os.path.abspath(input_file):
+            emit.error("input files %s and %s would be written to the same output files" % (other, input_file))
+
     serializers = get_serializers(opts)
 
     if not serializers and not opts.void_out:
